@@ -1,16 +1,27 @@
 use super::types::{BlockChunk, BlockSizeSpec, ESpec, ESpecError, ZLibVariant};
 
+/// Deepest nesting of specs (`b:` chunks, `e:` payloads) the parser follows.
+///
+/// Each level is one `parse_espec` stack frame and one `Box`/`Vec` level of the
+/// result; real specs nest two or three levels.
+const MAX_NESTING_DEPTH: usize = 64;
+
 /// Parser for `ESpec` strings
 pub struct Parser<'a> {
     input: &'a str,
     pos: usize,
+    depth: usize,
 }
 
 impl<'a> Parser<'a> {
     /// Create a new parser for the given input
     #[must_use]
     pub const fn new(input: &'a str) -> Self {
-        Self { input, pos: 0 }
+        Self {
+            input,
+            pos: 0,
+            depth: 0,
+        }
     }
 
     /// Parse the input string into an `ESpec`
@@ -93,6 +104,18 @@ impl<'a> Parser<'a> {
 
     /// Parse an `ESpec` from the current position
     fn parse_espec(&mut self) -> Result<ESpec, ESpecError> {
+        // One stack frame per nesting level: bound the nesting a string can ask for
+        if self.depth >= MAX_NESTING_DEPTH {
+            return Err(ESpecError::NestingTooDeep(self.pos));
+        }
+        self.depth += 1;
+        let spec = self.parse_espec_inner();
+        self.depth -= 1;
+        spec
+    }
+
+    /// Dispatch on the type letter at the current position
+    fn parse_espec_inner(&mut self) -> Result<ESpec, ESpecError> {
         match self.peek() {
             Some('n') => {
                 self.consume('n')?;
